@@ -150,30 +150,32 @@ def switch_rule(rep, prog, ev, t, site):
 
 
 def classes_reverse(rep, prog):
+    """a source symbol constructed with quantity X and `reverse` reports X unless reversed, then -X -- read off the value of its V / I property on
+    the constructed record (however the constructor stores it)"""
+    from ..prog import params_of
     em = prog.mod(ELM)
     n = 0
     for cname, c in sorted(em.defs.items()):
         if not isinstance(c, ast.ClassDef): continue
-        init = next((x for x in c.body if isinstance(x, ast.FunctionDef) and x.name == '__init__'), None)
-        if init is None: continue
-        params = [a.arg for a in init.args.args + init.args.kwonlyargs]
+        init = prog.find_member(em, c, '__init__')
+        if not init or not isinstance(init[1], ast.FunctionDef): continue
+        pos, _, _, _, kwonly, _ = params_of(init[1])
+        params = pos[1:] + kwonly
         q = 'V' if 'V' in params else ('I' if 'I' in params else None)
         if q is None or 'reverse' not in params: continue
-        # the stored attribute read back by property q
-        stores = [st for st in ast.walk(init) if isinstance(st, ast.Assign) and any(ast.unparse(t) == f'self._{q}' for t in st.targets)]
-        if not stores: continue
         n += 1
         ev = Evaluator(prog)
-        env = {'__parent__': None, q: A('X'), 'reverse': A('reverse'), 'self': A('self')}
-        v = ev.ev(stores[0].value, env, em, 1)
+        kw = {p_: (A('X') if p_ == q else A(p_)) for p_ in params}
+        sym = ev.construct(ev.ref_of(('class', em, c)), [], kw, 1)
+        site = prog.site(init[0], init[1])
+        if not isinstance(sym, Rec):
+            rep.ob('R13.reverse', f'class:{cname}', None, f'construction not followed: {sym!r:.80}', site); continue
+        v = ev.getattr(sym, q, em, 1)
         sp = spec(ev, "X if not reverse else -X", {'X': A('X'), 'reverse': A('reverse')}, em)
-        rep.ob('R13.reverse', f'class:{cname}', compare_terms(v, sp), f'_{q} = {v!r}', prog.site(em, stores[0]), lhs=v, rhs=sp)
-        # property returns the stored attribute
-        prop = next((x for x in c.body if isinstance(x, ast.FunctionDef) and x.name == q), None)
-        from ..prog import returned_expr
-        rv = returned_expr(prop) if prop is not None else None
-        okp = rv is not None and ast.unparse(rv) == f'self._{q}'
-        rep.ob('R13.reverse', f'class:{cname}:property', okp, f'{q} returns self._{q}', prog.site(em, prop or c))
+        rep.ob('R13.reverse', f'class:{cname}', compare_terms(v, sp), f'{q} of {cname}({q}=X, reverse) = {v!r}', site, lhs=v, rhs=sp)
+        prop = prog.find_member(em, c, q)
+        okp = bool(prop and isinstance(prop[1], ast.FunctionDef) and prog.is_property(prop[1]))
+        rep.ob('R13.reverse', f'class:{cname}:property', okp, f'{q} is a read-only property of the symbol', prog.site(prop[0], prop[1]) if prop else site)
     if n < 10: rep.error(f'only {n} source symbol classes with a reversal rule found')
 
 
